@@ -43,6 +43,19 @@ def opChecksalt (s : String) : String :=
   | some s => s!"status={(checksalt Config.tree.table s).code}"
   | none => "bad-op"
 
+def opChecksaltEnum (s : String) : String :=
+  match argBytes s with
+  | some (some p) =>
+    let tbl := Config.tree.table
+    let (c0, c1, c3, cx, h) := (List.range 255).foldl (fun (acc : Nat × Nat × Nat × Nat × Nat) i =>
+      let b := i + 1
+      let st := (checksalt tbl (some (p ++ [b.toUInt8]))).code
+      let (c0, c1, c3, cx, h) := acc
+      (if st == 0 then c0 + 1 else c0, if st == 1 then c1 + 1 else c1, if st == 3 then c3 + 1 else c3,
+       if st != 0 && st != 1 && st != 3 then cx + 1 else cx, (h + b * (st + 1)) % 4294967296)) (0, 0, 0, 0, 0)
+    s!"n0={c0} n1={c1} n3={c3} nx={cx} h={h}"
+  | _ => "bad-op"
+
 def opPreferred : String :=
   match preferredMethod Config.tree.dflt with
   | none => "pref=NULL"
@@ -52,6 +65,7 @@ def stepOp (st : DriverState) (toks : List String) : DriverState × String :=
   match toks with
   | ["G", entry, pfx, count, rb, nrb, osz] => (st, opGensalt st entry pfx count rb nrb osz)
   | ["K", s] => (st, opChecksalt s)
+  | ["KE", s] => (st, opChecksaltEnum s)
   | ["P"] => (st, opPreferred)
   | ["OS", b] =>
     match argBytes b with
